@@ -158,13 +158,19 @@ func RunDaemon() {
 	{
 		sig := make(chan os.Signal, 1)
 		signal.Notify(sig, os.Interrupt, syscall.SIGTERM, syscall.SIGINT)
+		done := make(chan struct{})
 
 		g.Add(func() error {
-			<-sig
-			ui.Info("Received SIGTERM signal, exiting...")
+			select {
+			case <-sig:
+				ui.Info("Received SIGTERM signal, exiting...")
+			case <-done:
+			}
 			return nil
 		}, func(err error) {
-			defer close(sig)
+			// do not close sig: further signals arriving while the fans are
+			// being restored must not be sent on a closed channel
+			close(done)
 			cancel()
 		})
 	}
